@@ -31,7 +31,7 @@ EXPECTED_REGIMES = ["temperature missing, usage present", "usage missing, temper
 
 
 def ENCODED():
-    return [dm.DailyModel._predict, dm.DailyModel._initialize_data, dm.DailyModel._meter_segment, dm.DailyModel._predict_submodel]
+    return [dm.DailyModel.predict, BillingModel.predict, dm.DailyModel._predict, dm.DailyModel._initialize_data, dm.DailyModel._meter_segment, dm.DailyModel._predict_submodel]
 
 
 def _cfg(tier):
@@ -49,6 +49,8 @@ def cases(tier, seed):
                 out.append(f"{lay}/{ik}/{obs}/{n}")
     out.append("billing-agg/monthly/obs/3")
     out.append("billing-agg/bimonthly/obs/3")
+    # the public predict() with every data-object type it accepts (the cases above drive _predict directly)
+    out += ["public/daily-reporting/obs/3", "public/daily-baseline/obs/3", "public/billing-reporting/obs/3", "public/billing-baseline/obs/3"]
     return out
 
 
@@ -117,6 +119,78 @@ def replay_agg(inp):
 REPLAY["agg"] = replay_agg
 
 
+def _data_shell(kind, df):
+    """a data object of the real class (isinstance holds) handing out `df`; the data classes themselves are C08-C10"""
+    from opendsm.eemeter.models.billing.data import BillingBaselineData, BillingReportingData
+    from opendsm.eemeter.models.daily.data import DailyBaselineData, DailyReportingData
+    cls = {"daily-reporting": DailyReportingData, "daily-baseline": DailyBaselineData,
+           "billing-reporting": BillingReportingData, "billing-baseline": BillingBaselineData}[kind]
+
+    class Shell(cls):
+        def __init__(self):
+            pass
+    Shell.df = property(lambda self: df.copy())
+    d = Shell()
+    d._df = df
+    d.tz = df.index.tz
+    d.warnings, d.disqualification = [], []
+    d.is_electricity_data = True
+    return d
+
+
+def _public_predict(kind, df):
+    cls = BillingModel if kind.startswith("billing") else dm.DailyModel
+    m = F.model("single", cls, tz=str(df.index.tz))
+    return m.predict(_data_shell(kind, df))
+
+
+def replay_public(inp):
+    idx = F.index_catalogue("pacific-dst", inp["n"])
+    df = F.float_frame(idx, inp["env"], inp["ts"], inp["os"])
+    out = _public_predict(inp["kind"], df.copy())
+    pr = check_frame(df, out, True)
+    return bool(pr), "; ".join(pr[:4])
+
+
+REPLAY["public"] = replay_public
+
+
+def run_public(case, kind, n):
+    import opendsm.eemeter.models.billing.model as bmod
+    from symv.carriers import patched, symnp
+    idx = F.index_catalogue("pacific-dst", n)
+    case.inputs = [z3.Real(f"T{i}") for i in range(n)] + [z3.Real(f"o{i}") for i in range(n)]
+
+    def run():
+        df, ts, os_ = F.sym_frame(idx, True, t_states=("val", "nan", "inf"))
+        snap = {c: cells(df[c]) for c in df.columns}
+        return snap, ts, os_, _public_predict(kind, df)
+
+    with R.symbolic_daily(), patched(bmod, np=symnp):
+        paths = case.explore(run)
+    for p in paths:
+        if p.outcome != "ret":
+            case.rep["harness_errors"].append(f"predict({kind}) raised {p.value!r}")
+            continue
+        snap, ts, os_, out = p.value
+        rp = ("public", (lambda st: lambda mdl: dict(kind=kind, n=n, env=model_env(mdl, case.inputs), ts=st[0], os=st[1]))((ts, os_)))
+        case.twin(p)
+        ok = list(out.index) == list(idx.sort_values()) and "predicted" in out.columns and "observed" in out.columns
+        case.prove(p, ok, "predict(): one row per input timestamp, with predicted and observed columns", replay=rp)
+        if not ok:
+            continue
+        pred, obs = cells(out["predicted"]), cells(out["observed"])
+        order = {t: i for i, t in enumerate(idx)}
+        for j, t in enumerate(out.index):
+            i = order[t]
+            hasp, haso = F.finite(pred[j]), F.finite(obs[j])
+            case.prove(p, hasp == haso, "predict(): predicted present <=> observed present (whatever data-object type was handed in)", replay=rp)
+            case.prove(p, (not haso) if not F.finite(snap["temperature"][i]) else True, "predict(): missing temperature => consumption masked", replay=rp)
+            case.prove(p, (not hasp) if not F.finite(snap["observed"][i]) else True, "predict(): missing consumption => no prediction", replay=rp)
+            case.regime("temperature missing, usage present", ts[i] == "nan" and os_[i] == "val")
+    case.sample(dict(entry=f"predict({kind})", rows=n, paths=len(paths)))
+
+
 def run_agg(case, agg, n):
     """BillingModel.predict with aggregation: observed and predicted stay masked together in the period totals"""
     import opendsm.eemeter.models.billing.model as bmod
@@ -157,6 +231,8 @@ def run_case(case: Case, name: str):
     n = int(n)
     if lay == "billing-agg":
         return run_agg(case, ik, n)
+    if lay == "public":
+        return run_public(case, ik, n)
     with_obs = obs == "obs"
     idx = F.index_catalogue(ik, n)
     names = [f"T{i}" for i in range(n)] + [f"o{i}" for i in range(n)]
